@@ -122,7 +122,7 @@ KANI_Z = ["-Z", "function-contracts", "-Z", "stubbing", "-Z", "unstable-options"
 MEMSAFE_PAT = re.compile(
     r"dereference failure|pointer (NULL|invalid|outside|relation)|deallocated|dead object|"
     r"memory leak|misaligned|invalid (value|pointer)|Undefined Behavior|"
-    r"uninitialized|assigns|is freeable|same object violation|double free|"
+    r"uninitialized|assigns|assignable|is freeable|same object violation|double free|"
     r"free argument|valid_value|transmute", re.I)
 
 
@@ -155,7 +155,7 @@ def run_kani(scratch, harnesses, profile="debug", features=(), jobs=None,
         except Exception as e:  # noqa
             d = None
         if d:
-            stats = {c["harness_id"]: c.get("cbmc_stats", {}) for c in d.get("cbmc", [])}
+            stats = {c["harness_id"]: (c.get("cbmc_stats") or {}) for c in d.get("cbmc", [])}
             for r in d.get("verification_results", {}).get("results", []):
                 hid = r["harness_id"]
                 checks = r.get("checks", [])
@@ -164,8 +164,8 @@ def run_kani(scratch, harnesses, profile="debug", features=(), jobs=None,
                     "duration_s": r.get("duration_ms", 0) / 1000.0,
                     "checks": checks,
                     "n_checks": len(checks),
-                    "solver_s": stats.get(hid, {}).get("runtime_decision_procedure_s"),
-                    "symex_s": stats.get(hid, {}).get("runtime_symex_s"),
+                    "solver_s": (stats.get(hid) or {}).get("runtime_decision_procedure_s"),
+                    "symex_s": (stats.get(hid) or {}).get("runtime_symex_s"),
                 }
     # harnesses that produced no structured result (compile error, timeout, crash)
     compile_error = ("error: could not compile" in text or "error[E" in text
@@ -206,6 +206,8 @@ def classify_harness(unit_expect, r):
     if r["status"] == "Undecided":
         return "undecided", r.get("why", "no result")
     checks = r["checks"]
+    if not checks:
+        return "undecided", "no checks reported for this harness (timeout, out of memory or crash)"
     fails = failed_checks(r)
     unwind_fail = [c for c in fails if "unwinding assertion" in (c.get("description") or "")]
     undet = [c for c in checks if c.get("status") in ("Undetermined", "Error")]
